@@ -71,6 +71,12 @@ struct Case {
     trigger: Trigger,
     client_ops: Vec<OpKind>,
     server_ops: Vec<OpKind>,
+    /// idleness only: the network keeps replaying every datagram of one direction (towards the
+    /// client?) every 200 ms for 50 s, optionally with every second copy corrupted. Replayed or
+    /// corrupted packets are not "received and processed successfully" (RFC 9000 §10.1): the idle
+    /// timeout must fire all the same.
+    #[serde(default)]
+    ghost: Option<(bool, bool)>,
 }
 
 const STREAM_LIMIT: u32 = 2;
@@ -115,8 +121,9 @@ fn case_strategy() -> impl Strategy<Value = Case> {
         trigger,
         ops(),
         ops(),
+        prop_oneof![1 => Just(None), 1 => (any::<bool>(), any::<bool>()).prop_map(Some)],
     )
-        .prop_map(|(lat_us, client_idle_ms, server_idle_ms, phase, trigger, mut client_ops, mut server_ops)| {
+        .prop_map(|(lat_us, client_idle_ms, server_idle_ms, phase, trigger, mut client_ops, mut server_ops, ghost)| {
             use OpKind::*;
             // an accept can only stay pending if the peer opens no stream of that kind
             let opens_bi = |v: &Vec<OpKind>| v.iter().any(|o| matches!(o, ReadIdle));
@@ -140,7 +147,8 @@ fn case_strategy() -> impl Strategy<Value = Case> {
                     phase = Phase::AfterHandshake { ms: 10 };
                 }
             }
-            Case { lat_us, client_idle_ms, server_idle_ms, phase, trigger, client_ops, server_ops }
+            let ghost = if matches!(trigger, Trigger::IdleOnly) { ghost } else { None };
+            Case { lat_us, client_idle_ms, server_idle_ms, phase, trigger, client_ops, server_ops, ghost }
         })
 }
 
@@ -312,7 +320,20 @@ async fn scenario(case: Case) -> Obs {
         max_datagram: 0,
     };
     let cfg = WorldCfg {
-        net: NetCfg { lat_c2s_us: case.lat_us, lat_s2c_us: case.lat_us, ..Default::default() },
+        net: NetCfg {
+            lat_c2s_us: case.lat_us,
+            lat_s2c_us: case.lat_us,
+            rules: match case.ghost {
+                Some((towards_client, flip)) => vec![Rule {
+                    dir: if towards_client { Dir::S2C } else { Dir::C2S },
+                    from: 0,
+                    len: u32::MAX,
+                    action: Action::Ghost { n: 250, gap_us: 200_000, flip },
+                }],
+                None => vec![],
+            },
+            ..Default::default()
+        },
         client: p(case.client_idle_ms),
         server: p(case.server_idle_ms),
         streams: vec![],
@@ -593,6 +614,9 @@ fn oracle(case: &Case, ctx: &mut CaseCtx) -> Outcome {
                         );
                     }
                     ctx.class("idle:fired");
+                    if case.ghost.is_some() {
+                        ctx.class("idle:fired-despite-replays");
+                    }
                 }
             }
         }
